@@ -46,7 +46,7 @@ import random
 
 PID = "C19"
 LEVEL = "proof"
-LEAN_MODULES = ["AsynqModel.Theorems.C19"]
+LEAN_MODULES = ["AsynqModel.Theorems.C19", "AsynqModel.Theorems.C19b"]
 # Theorems with content of their own (what level_claimed.text in MANIFEST.json rests on) ...
 HEADLINE_THEOREMS = [
     "AsynqModel.Mock.C19_restore",
@@ -69,6 +69,10 @@ HEADLINE_THEOREMS = [
     "AsynqModel.Mock.C19_spec_holds_module_level",
     "AsynqModel.Mock.C19_spec_holds_mode_insensitive",
     "AsynqModel.Mock.C19_spec_holds",
+    # Theorems/C19b.lean: an accepted history of any length and origin is accepted at EVERY position (watchStep from
+    # the watch state of the predecessors, shape clause, frame clause of read-only operations); prefix-closed
+    "AsynqModel.Mock.C19_spec_every_step",
+    "AsynqModel.Mock.C19_spec_prefix",
     "AsynqModel.Mock.C19_asyncio_mode_repaired",
     "AsynqModel.Mock.C19_new_callable_asynq16_counterexample",
     "AsynqModel.Mock.EnterFail.C19_enter_failure_restores",
